@@ -116,6 +116,9 @@ type Plan struct {
 	Build func(ex *Exchange, hdr []byte) []byte
 	// Delay before answering.
 	Delay time.Duration
+	// ForceBasic makes the model answer in basic mode even if it remembers the cited exchange
+	// (a conformant server may always do so).
+	ForceBasic bool
 }
 
 type Server struct {
@@ -128,6 +131,17 @@ type Server struct {
 	seq   int
 	busy  bool
 	done  chan struct{}
+	// Depth bounds how many exchanges per client the model remembers (0: all). Real servers keep few:
+	// with Depth 1 an interleaved request that cites anything but the latest exchange gets a basic reply.
+	Depth int
+	order map[string][]ntp.Time64
+}
+
+// SetDepth sets the per-client memory depth for subsequent exchanges.
+func (s *Server) SetDepth(d int) {
+	s.mu.Lock()
+	s.Depth = d
+	s.mu.Unlock()
 }
 
 // WaitIdle returns once the model is blocked in its next read (everything it was going to send has been sent).
@@ -191,6 +205,7 @@ func (s *Server) Take() []*Exchange {
 func (s *Server) Forget() {
 	s.mu.Lock()
 	s.byRx = map[string]map[ntp.Time64]*Exchange{}
+	s.order = nil
 	s.mu.Unlock()
 }
 
@@ -238,7 +253,7 @@ func (s *Server) loop() {
 		cited := s.byRx[client][ex.Req.OriginTime]
 		s.mu.Unlock()
 		hdr := make([]byte, ntp.PacketLen)
-		if cited != nil && ex.Req.ReceiveTime != ex.Req.TransmitTime {
+		if cited != nil && ex.Req.ReceiveTime != ex.Req.TransmitTime && !plan.ForceBasic {
 			ex.Interleaved, ex.Cited = true, cited
 			resp.OriginTime = ex.Req.ReceiveTime
 			resp.TransmitTime = cited.SentTx64
@@ -262,6 +277,14 @@ func (s *Server) loop() {
 			s.byRx[client] = map[ntp.Time64]*Exchange{}
 		}
 		s.byRx[client][ex.Rx64] = ex
+		if s.order == nil {
+			s.order = map[string][]ntp.Time64{}
+		}
+		s.order[client] = append(s.order[client], ex.Rx64)
+		for s.Depth > 0 && len(s.order[client]) > s.Depth {
+			delete(s.byRx[client], s.order[client][0])
+			s.order[client] = s.order[client][1:]
+		}
 		s.mu.Unlock()
 		outs := []Out{{Data: ex.Genuine}}
 		if plan.Outs != nil {
